@@ -80,7 +80,7 @@ impl Iso {
         let mut sh_evs: Vec<Value> = Vec::new();
         let mut sh_sends: BTreeMap<u8, Vec<String>> = BTreeMap::new();
         let mut sh_res = "ok".to_string();
-        let mut scb = Cb { now_us: now, token: tok_bytes("T").unwrap(), ..Default::default() };
+        let mut scb = Cb { now_us: now, token: tok_bytes("T").unwrap(), fail_sends: act["fail"].as_bool().unwrap_or(false), ..Default::default() };
         let mut run = |sh: &mut Shadow, addr: u8, pid: u32, f: &mut dyn FnMut(&mut c6::Connection, &mut Cb) -> Vec<Value>,
                        sh_evs: &mut Vec<Value>, sh_sends: &mut BTreeMap<u8, Vec<String>>, sh_res: &mut String| {
             scb.out.clear();
@@ -350,14 +350,14 @@ pub fn drive(args: &[String]) -> i32 {
                 let act = match st.as_str() {
                     "unconnected" => {
                         let x: f64 = rng.gen();
-                        if x < 0.7 { json!({"a": "accept", "pid": pid}) } else if x < 0.85 { json!({"a": "reject", "pid": pid, "r": 3}) } else { json!({"a": "ignore", "pid": pid}) }
+                        if x < 0.7 { json!({"a": "accept", "pid": pid}) } else if x < 0.85 { json!({"a": "reject", "pid": pid, "r": 3, "fail": x < 0.74}) } else { json!({"a": "ignore", "pid": pid}) }
                     }
                     "online" => {
                         let x: f64 = rng.gen();
                         next_id += 1;
                         if x < 0.6 { json!({"a": "send", "pid": pid, "v": x < 0.4, "sz": (next_id % 50) + 1, "id": next_id % 250}) }
                         else if x < 0.9 { json!({"a": "flush", "pid": pid}) }
-                        else { json!({"a": "disconnect", "pid": pid, "r": 3}) }
+                        else { json!({"a": "disconnect", "pid": pid, "r": 3, "fail": x > 0.97}) }
                     }
                     "disconnected" => json!({"a": "ignore", "pid": pid}),
                     _ => if rng.gen::<f64>() < 0.1 { json!({"a": "disconnect", "pid": pid, "r": 3}) } else { json!({"a": "tick"}) },
